@@ -46,7 +46,8 @@ class RelGen:
         r = {'name': s.ident('n'), 'archqual': None, 'version': None, 'archs': None, 'profiles': [], 'features': []}
         text = list(r['name'])
         if cfg.get('archqual') and e.choose('aq', 2):
-            r['archqual'] = s.ident('q'); text += [58] + (s.ws() if cfg.get('archqual_ws') else []) + r['archqual']
+            r['archqual'] = s.ident('q')
+            text += ([32] if (cfg.get('archqual_space') and e.choose('aqsp', 2)) else []) + [58] + (s.ws() if cfg.get('archqual_ws') else []) + r['archqual']
         if not cfg.get('no_version') and e.choose('ver', 2):
             op = OPS[e.choose('op', 5)]; v, vk = s.version()
             r['version'] = (op, v); r['features'].append('version-' + vk)
